@@ -340,14 +340,10 @@ package rpc
 //@   requires conn != nil
 //@   ghostset gg_ncall() = gg_ncall() + 1
 //@   ghostset gg_lastconn() = ref(conn)
-//@ func (*Conn).Close
-//@   trusted
-//@   requires conn != nil
-//@   ghostset gb_closeCalled(conn) = true
 
 //@ func checkPersistConnErr
 //@   property C14
-//@   requires pc != nil && pc.Conn != nil
+//@   requires pc != nil && pc.Conn != nil && !isnil(pc.Conn.codec)
 //@   ghostset gb_markedDead(pc) = gb_markedDead(pc) || err == ErrShutdown
 //@   ensures implies(err == ErrShutdown, !pc.alive && gb_closeCalled(pc.Conn))
 
@@ -556,3 +552,82 @@ package rpc
 //@   property C18 C16
 //@   requires c != nil && c.Alpha >= 0.0 && c.Alpha <= 1.0
 //@   loop 1: invariant true
+
+// ---------------------------------------------------------------------------
+// Part 5: Conn (conn.go) — lock Conn.mutex
+// ---------------------------------------------------------------------------
+// ghost token gf_tok(call): 0 = completed / not ours, 1 = registered in conn.pending (the table owns the right to
+// complete the call), 2 = the current thread owns the right to complete the call. A call is completed (done()) only
+// by the holder of 2; the table hands its tokens out only under the lock.
+
+//@ lockinv Conn.mutex
+//@   property C01 C02 C03 C20
+//@   guards Conn.seq, Conn.pending, Conn.streams, Conn.closing, Conn.shutdown, Map<map[uint64]*Call>
+//@   tokens tok with gv_slot gb_acked
+//@   invariant self.pending != nil && self.streams != nil
+//@   invariant forallkey(s, self.pending, self.pending[s] != nil && self.pending[s].upgrade != nil)
+//@   invariant forallkey(s, self.streams, self.streams[s] != nil)
+//@   invariant [C02] implies(!self.shutdown, forallkey(s, self.pending, gf_tok(self.pending[s]) == 1 || gb_acked(self.pending[s])))
+//@   invariant [C02] implies(self.shutdown, forallkey(s, self.pending, gf_tok(self.pending[s]) != 1))
+//@   invariant [C02] forallkey(s, self.pending, implies(gf_tok(self.pending[s]) == 1, gv_slot(self.pending[s]) == s))
+//@   invariant [C02] forallkey(s, self.pending, implies(gf_tok(self.pending[s]) == 2, gb_acked(self.pending[s])))
+//@   assumed self.seq < 1<<62
+
+//@ iface ClientCodec.Close
+//@   params codec
+//@   ghostset gg_codecClose() = gg_codecClose() + 1
+
+//@ func (*Conn).NumCalls
+//@   property C15
+//@   requires conn != nil
+//@   ensures true
+
+//@ func (*Conn).Close
+//@   property C20 C03
+//@   requires conn != nil && !isnil(conn.codec)
+//@   ghostset gb_closeCalled(conn) = true
+//@   ensures [C20] gg_codecClose() == old(gg_codecClose()) || gg_codecClose() == old(gg_codecClose()) + 1
+//@   ensures [C20] implies(gg_codecClose() == old(gg_codecClose()), err == ErrShutdown)
+//@   atcall ClientCodec.Close#1: [C20] conn.closing
+
+//@ field ctxPool: pool *Context
+//@ field callPool: pool *Call
+//@ field donePool: pool chan *Call
+//@ field upgradePool: pool *upgrade
+//@ field upgradeBufferPool: pool []byte
+//@ tokentable Conn.pending tok slot
+
+//@ iface ClientCodec.WriteRequest
+//@   params codec, ctx, param
+//@   requires ctx != nil && ctx.upgrade != nil
+//@   ghostset gg_wreq() = gg_wreq() + 1
+//@   ghostset ggv_wseq() = ctx.Seq
+
+//@ func (*Call).done
+//@   property C02
+//@   requires call != nil && (gf_tok(call) == 2 || gb_internal(call))
+//@   ghostset gf_tok(call) = ite(gb_internal(call), gf_tok(call), 0)
+//@   ghostset gg_dones() = gg_dones() + 1
+
+//@ pure sendable(conn *Conn, call *Call) bool = conn != nil && call != nil && call.upgrade != nil && !isnil(conn.codec) &&
+//@      legalUpgrade(call.upgrade) && implies(call.upgrade.Stream > 0, call.stream != nil) && (gf_tok(call) == 2 || gb_internal(call)) && !gb_acked(call) &&
+//@      gb_internal(call) == (call.upgrade.Stream == 2)
+
+//@ func (*Conn).send
+//@   property C01 C02 C03 C06 C09
+//@   requires sendable(conn, call)
+//@   ensures [C02] gf_tok(call) != 2 || gb_internal(call)
+//@   ensures [C04] gg_wreq() <= old(gg_wreq()) + 1
+//@   atcall (*Call).done#1: [C03] call.Error == ErrShutdown && gg_wreq() == old(gg_wreq())
+//@   atcall ClientCodec.WriteRequest#1: [C01] arg0.Seq == seq && arg0.upgrade == call.upgrade && implies(call.upgrade.Stream == 2 || call.upgrade.Stream == 3, seq == call.stream.seq)
+//@   atcall (*Call).done#2: [C06] !has(conn.pending, seq) && call.Error != nil
+
+//@ func (*Conn).write
+//@   property C02 C05
+//@   requires sendable(conn, call)
+//@   ensures [C02] gf_tok(call) != 2 || gb_internal(call)
+//@ func (*Conn).write$1
+//@   property C02 C05
+//@   requires sendable(conn, call)
+//@   consumes gf_tok(call)
+//@   ensures [C02] gf_tok(call) != 2 || gb_internal(call)
